@@ -7,9 +7,13 @@
    Repair flags (true = repaired source, see fixes/C14-*.diff; false = pinned source):
      guard_fix   _unquote_unescape on a whitespace-only token        (IndexError  -> ('', False))
      fix_nhkeys  _parse_nh_struct: a required field is missing        (KeyError    -> ValueError)
-     fix_nhsfx   native-histogram sample names may not end in _total/_gcount/_gsum either, and the suffix test
+     fix_nhsfx   native-histogram sample names: (1) they may not end in _total/_gcount/_gsum either, and the suffix test
                  also applies to a quoted name taken from the braces
-                 (AttributeError / TypeError on the None value -> ValueError)
+                 (AttributeError / TypeError on the None value -> ValueError)        (fixes/C14-om-nh-value-suffixes.diff)
+                 (2) om_enter_family: only a native sample named like the histogram family in progress skips the
+                 family switch, one of a foreign name is rejected (the pinned source attaches a native sample to the
+                 family in progress whatever its name: interleaved families and late metadata were accepted)
+                                                                              (fixes/C15-om-native-foreign-name.diff)
      fix_tsmix   Timestamp vs float inside one group                  (AttributeError -> compared as floats)
      fix_isnan   math.isnan(<huge int>)                               (OverflowError -> NaN test by v != v)
      fix_unit    the UNIT text goes through _unescape_help (commit ef28dd7; false = raw parts[3])
@@ -943,9 +947,16 @@ Section OMParser.
     do '(cand, quoted) <- unquote_unescape_with guard_fix (os_name sample);
     if negb quoted && negb (is_valid_legacy_metric_name cand) then Err ValueError else Ok cand.
 
-  (* a sample whose name the family in progress does not allow closes it and starts an unknown family *)
+  (* a sample whose name the family in progress does not allow closes it and starts an unknown family.
+     A native-histogram sample is exempt: it is named like the histogram family itself, and that bare name is not among
+     a histogram's allowed names.  Repaired source (fix_nhsfx, fixes/C15-om-native-foreign-name.diff): only a native
+     sample that carries the name of the family in progress is exempt, one of a foreign name is rejected (a native
+     histogram value belongs to the histogram family of its own name only).  Pinned source: every native sample is
+     exempt, so it is attached to the histogram family in progress WHATEVER ITS NAME (the `if is_nh` below is then dead). *)
   Definition om_enter_family (st : om_st) (sample : om_sample) (is_nh : bool) : res (om_st * list om_family) :=
-    if negb (mem_str (os_name sample) (st_allowed st)) && negb is_nh then
+    if negb (mem_str (os_name sample) (st_allowed st))
+       && negb (is_nh && (negb fix_nhsfx || om_opt_str_eqb (st_name st) (os_name sample))) then
+      if is_nh then Err ValueError else
       do '(out, seen') <- om_flush st;
       do cand <- om_implicit_name sample;
       Ok (om_new_family st seen' cand (Some OM_unknown) [os_name sample], out)
